@@ -134,7 +134,7 @@ impl Typer {
                 self.infer_res_expr(genv, local_env, diagnostics, &res, &hint, astptr)
             }
             hir::Expr::EStaticMember { path, astptr } => {
-                self.infer_static_member_expr(genv, diagnostics, &path, astptr)
+                self.infer_static_member_expr(genv, local_env, diagnostics, &path, astptr)
             }
             hir::Expr::EUnit => tast::Expr::EPrim {
                 value: Prim::unit(),
@@ -611,6 +611,7 @@ impl Typer {
     fn infer_static_member_expr(
         &mut self,
         genv: &PackageTypeEnv,
+        local_env: &LocalTypeEnv,
         diagnostics: &mut Diagnostics,
         path: &hir::Path,
         astptr: Option<MySyntaxNodePtr>,
@@ -635,12 +636,13 @@ impl Typer {
             super::util::push_ice(diagnostics, "static member path missing final segment");
             return self.error_expr(astptr);
         };
-        self.infer_type_member_expr(genv, diagnostics, &type_name, member, astptr)
+        self.infer_type_member_expr(genv, local_env, diagnostics, &type_name, member, astptr)
     }
 
     fn infer_type_member_expr(
         &mut self,
         genv: &PackageTypeEnv,
+        local_env: &LocalTypeEnv,
         diagnostics: &mut Diagnostics,
         type_name: &str,
         member: &str,
@@ -687,7 +689,14 @@ impl Typer {
             return self.error_expr(astptr);
         };
         if let Some(method_ty) = type_env.lookup_inherent_method(&receiver_ty, &member_ident) {
-            let inst_ty = self.inst_ty(&method_ty);
+            let inst_ty = self.inst_inherent_method_ty(
+                genv,
+                local_env,
+                type_env,
+                &receiver_ty,
+                &member_ident,
+                &method_ty,
+            );
             tast::Expr::EInherentMethod {
                 receiver_ty: receiver_ty.clone(),
                 method_name: member_ident,
@@ -966,7 +975,14 @@ impl Typer {
             return self.error_expr(None);
         };
         if let Some(method_ty) = type_env.lookup_inherent_method(&receiver_ty, &member_ident) {
-            let inst_method_ty = self.inst_ty(&method_ty);
+            let inst_method_ty = self.inst_inherent_method_ty(
+                genv,
+                local_env,
+                type_env,
+                &receiver_ty,
+                &member_ident,
+                &method_ty,
+            );
             if let tast::Ty::TFunc { params, ret_ty } = inst_method_ty.clone() {
                 if params.len() != args.len() {
                     super::util::push_error(
@@ -2175,7 +2191,14 @@ impl Typer {
                     let mut arg_types = Vec::with_capacity(args.len() + 1);
                     arg_types.push(receiver_ty.clone());
                     args_tast.push(receiver_tast);
-                    let inst_method_ty = self.inst_ty(&method_ty);
+                    let inst_method_ty = self.inst_inherent_method_ty(
+                        genv,
+                        local_env,
+                        env_for_receiver_ty(genv, &receiver_ty),
+                        &receiver_ty,
+                        &tast::TastIdent(field.to_ident_name()),
+                        &method_ty,
+                    );
                     // as in `T::m(x, a)`: an argument for a `dyn` parameter is checked against it
                     let expected_params = match &inst_method_ty {
                         tast::Ty::TFunc { params, .. } if params.len() == args.len() + 1 => {
@@ -3363,6 +3386,31 @@ fn lookup_function_type_by_hint(genv: &PackageTypeEnv, hint: &str) -> Option<tas
     let segments = hint.split("::").map(|seg| seg.to_string()).collect();
     let path = hir::Path::from_idents(segments);
     lookup_function_path(genv, &path).map(|(_, ty)| ty)
+}
+
+impl Typer {
+    /// Instantiates the type of an inherent method for one use of it; the trait bounds of the
+    /// method's own type parameters become obligations of this use, as for a function.
+    fn inst_inherent_method_ty(
+        &mut self,
+        genv: &PackageTypeEnv,
+        local_env: &LocalTypeEnv,
+        type_env: &GlobalTypeEnv,
+        receiver_ty: &tast::Ty,
+        method: &tast::TastIdent,
+        method_ty: &tast::Ty,
+    ) -> tast::Ty {
+        match type_env
+            .trait_env
+            .inherent_method_bounds_name(receiver_ty, method)
+        {
+            Some(name) => {
+                let in_scope = local_env.tparam_trait_bounds_snapshot();
+                self.inst_fn_ty(genv, in_scope, &name, method_ty)
+            }
+            None => self.inst_ty(method_ty),
+        }
+    }
 }
 
 fn lookup_inherent_method_for_ty(
